@@ -137,10 +137,15 @@ func (e *Eval) Prepare(flags ...[]byte) error {
 	// once: otherwise the new program would be appended to the
 	// bytecode, constants, and functions of the previous one.
 	//
+	// The previous machine goes too: if compilation fails there must
+	// be no program to run or dump, rather than the old one paired
+	// with the new (empty) constants.
+	//
 	e.instructions = code.Instructions{}
 	e.constants = []object.Object{}
 	e.functions = make(map[string]environment.UserFunction)
 	e.tooLarge = false
+	e.machine = nil
 
 	//
 	// Compile the program to bytecode
